@@ -13,7 +13,8 @@ struct RpdoRun : NodeEnv {
     bool lowIdx = false; int nTpdo = 0;   // nTpdo > 0: synchronous / event TPDOs with the same channel numbers share the SYNC bookkeeping and the mapped objects with the RPDOs
     bool tpdoFrame(const Frame &f) const { if (!nTpdo || (f.id & 0x7F) != nodeId) return false; uint32_t fc = f.id & 0x780; return fc == 0x180 || fc == 0x280 || fc == 0x380 || fc == 0x480; }
     void dropTpdo(Fx &fx) { fx.tx.erase(std::remove_if(fx.tx.begin(), fx.tx.end(), [this](const Frame &f) { return tpdoFrame(f); }), fx.tx.end()); }
-    int m = M_PREOP; std::vector<RpdoModel> R; std::vector<RObj> objs; std::map<uint8_t, uint32_t> val;
+    int m = M_PREOP; std::vector<RpdoModel> R; std::vector<RObj> objs; std::map<uint8_t, uint32_t> val; std::map<uint8_t, uint16_t> altIdx;
+    uint16_t ix(uint8_t sub) const { auto it = altIdx.find(sub); return it == altIdx.end() ? (uint16_t)0x2100 : it->second; }   // most objects live at 2100h:sub, some at indices whose low byte looks like a data type entry (2005h, 6007h, 6402h)
     RpdoRun(const Plan &p, Cov &c, bool vb) : NodeEnv(p, c, vb) {}
     void build() {
         nodeId = 1; freq = 1000;
@@ -23,8 +24,8 @@ struct RpdoRun : NodeEnv {
         // CiA 301 allows a dictionary to publish the static data type entries 0002h..0007h; a dummy mapping still only skips its bytes
         lowIdx = plan.c("lowidx", 0) != 0; if (lowIdx) { add_u32(specs, 0x0005, 0, CO_OBJ_____R_, 8); add_u32(specs, 0x0006, 0, CO_OBJ_____R_, 16); add_u32(specs, 0x0007, 0, CO_OBJ_____R_, 32); cov.hit("dictionary-publishes-data-type-entries"); }
         int no = 0;
-        for (auto &o : plan.ops) if (o.k == "obj" && no < 12) { no++; RObj d{(uint8_t)no, (uint8_t)(o.arg(0) == 1 ? 1 : o.arg(0) == 2 ? 2 : 4)}; objs.push_back(d); uint32_t init = (uint32_t)o.arg(2) & (d.width == 4 ? 0xFFFFFFFFu : ((1u << (8 * d.width)) - 1));
-            add_typed(specs, d.width == 1 ? T_U8 : d.width == 2 ? T_U16 : T_U32, 0x2100, d.sub, (uint8_t)(CO_OBJ____PRW | (o.arg(1) ? CO_OBJ_D_____ : 0)), init); val[d.sub] = init; }
+        for (auto &o : plan.ops) if (o.k == "obj" && no < 12) { no++; RObj d{(uint8_t)no, (uint8_t)(o.arg(0) == 1 ? 1 : o.arg(0) == 2 ? 2 : 4)}; objs.push_back(d); if (o.arg(3) > 0) { static const uint16_t alt[] = {0x2005, 0x6007, 0x6402, 0x2F03, 0x2002}; altIdx[d.sub] = alt[(o.arg(3) - 1) % 5]; cov.hit("mapped-object-index-with-low-byte-of-a-data-type"); } uint32_t init = (uint32_t)o.arg(2) & (d.width == 4 ? 0xFFFFFFFFu : ((1u << (8 * d.width)) - 1));
+            add_typed(specs, d.width == 1 ? T_U8 : d.width == 2 ? T_U16 : T_U32, ix(d.sub), d.sub, (uint8_t)(CO_OBJ____PRW | (o.arg(1) ? CO_OBJ_D_____ : 0)), init); val[d.sub] = init; }
         R.assign(CO_RPDO_N, RpdoModel());
         for (auto &o : plan.ops) if (o.k == "rpdocfg") {
             int n = (int)(o.arg(0) % CO_RPDO_N); RpdoModel &r = R[(size_t)n]; if (r.exists) continue; r.exists = true; r.valid = o.arg(1) != 0; r.type = (uint8_t)o.arg(2); r.id = 0x200u + 0x100u * (uint32_t)n + nodeId;
@@ -34,13 +35,13 @@ struct RpdoRun : NodeEnv {
                 if (sel >= 200 || objs.empty()) { static const uint8_t dw[6] = {1, 2, 4, 1, 2, 4}; int di = opt % 6; me = {true, 0, dw[di], (uint16_t)(2 + di)}; }
                 else { const RObj &d = objs[sel % objs.size()]; bool dup = false; for (auto &x : r.map) if (!x.dummy && x.sub == d.sub) dup = true; if (dup) continue; me = {false, d.sub, (uint8_t)(d.width == 4 && (opt & 1) ? 3 : d.width), 0}; }
                 if (total + me.bytes > 8 || r.map.size() >= 8) break; total += me.bytes; r.map.push_back(me);
-                links.push_back(me.dummy ? CO_LINK(me.dummyIdx, 0, me.bytes * 8) : CO_LINK(0x2100, me.sub, me.bytes * 8));
+                links.push_back(me.dummy ? CO_LINK(me.dummyIdx, 0, me.bytes * 8) : CO_LINK(ix(me.sub), me.sub, me.bytes * 8));
             }
             r.mapped = total;
             add_rpdo(specs, n, r.id | (r.valid ? 0 : 0x80000000u), r.type, links, false);
         }
         nTpdo = objs.empty() ? 0 : (int)std::min<int64_t>(plan.c("tpdos", 0), CO_TPDO_N);
-        for (int n = 0; n < nTpdo; n++) add_tpdo(specs, n, 0x40000180u + 0x100u * (uint32_t)n + nodeId, (uint8_t)(plan.c("tpdotype", 1) ? 1 : 254), 0, 0, {CO_LINK(0x2100, objs[(size_t)n % objs.size()].sub, objs[(size_t)n % objs.size()].width * 8)}, true);
+        for (int n = 0; n < nTpdo; n++) add_tpdo(specs, n, 0x40000180u + 0x100u * (uint32_t)n + nodeId, (uint8_t)(plan.c("tpdotype", 1) ? 1 : 254), 0, 0, {CO_LINK(ix(objs[(size_t)n % objs.size()].sub), objs[(size_t)n % objs.size()].sub, objs[(size_t)n % objs.size()].width * 8)}, true);
         if (nTpdo) cov.hit("tpdos-share-channel-numbers-and-objects-with-rpdos");
         NodeCfg cfg; cfg.nodeId = nodeId; cfg.freq = freq; cfg.tmrNum = 8;
         w.build(0, cfg, specs); w.init(0); w.start(0);
@@ -49,7 +50,7 @@ struct RpdoRun : NodeEnv {
     void apply(RpdoModel &r, const uint8_t *d) {
         int pos = 0; for (auto &me : r.map) { if (!me.dummy) { uint32_t v = 0; for (int b = 0; b < me.bytes; b++) v |= (uint32_t)d[pos + b] << (8 * b); val[me.sub] = v; } pos += me.bytes; }
     }
-    bool imageOk(std::string &why) { for (auto &d : objs) { uint32_t st = w.raw(0, 0x2100, d.sub); if (st != val[d.sub]) { why = "object 2100h:" + std::to_string(d.sub) + " holds " + hex(st) + ", model " + hex(val[d.sub]); return false; } } return true; }
+    bool imageOk(std::string &why) { for (auto &d : objs) { uint32_t st = w.raw(0, ix(d.sub), d.sub); if (st != val[d.sub]) { why = "object 2100h:" + std::to_string(d.sub) + " holds " + hex(st) + ", model " + hex(val[d.sub]); return false; } } return true; }
     void op(const Op &o) {
         const std::string &k = o.k; if (k == "obj" || k == "rpdocfg") return;
         if (k == "rpdoburst") { int64_t cnt = std::min<int64_t>(o.arg(1), 1100); cov.hit("rpdo-burst-of-256-or-more-between-syncs", cnt >= 256 ? 1 : 0); for (int64_t i = 0; i < cnt && v.ok; i++) op(Op("rpdo", {o.arg(0), 0, 8}, o.b)); return; }   // many receptions of one RPDO before the next SYNC, each judged on its own
@@ -67,7 +68,7 @@ struct RpdoRun : NodeEnv {
             if (!nTpdo || m == M_STOP || m == M_INIT) return; int n = (int)(o.arg(0) % nTpdo); uint32_t id = 0x40000180u + 0x100u * (uint32_t)n + nodeId;
             if (o.arg(1) == 0) (void)sdoWrite((uint16_t)(0x1800 + n), 1, id | 0x80000000u, 4); else if (o.arg(1) == 1) (void)sdoWrite((uint16_t)(0x1800 + n), 1, id, 4); else (void)sdoWrite((uint16_t)(0x1800 + n), 2, (uint32_t)(o.arg(2) & 1 ? 1 : 254), 1);
             cov.hit("tpdo-reconfigured-next-to-rpdo"); for (auto &r : R) if (r.hasNew == 1) { cov.hit("tpdo-reconfigured-while-rpdo-frame-buffered"); nontrivial = true; } }
-        else if (k == "wr") { if (objs.empty()) return; const RObj &d = objs[(size_t)o.arg(0) % objs.size()]; uint32_t v2 = (uint32_t)o.arg(1) & (d.width == 4 ? 0xFFFFFFFFu : ((1u << (8 * d.width)) - 1)); w.cur = 0; CO_ERR e = d.width == 1 ? CODictWrByte(&N()->Dict, CO_DEV(0x2100, d.sub), (uint8_t)v2) : d.width == 2 ? CODictWrWord(&N()->Dict, CO_DEV(0x2100, d.sub), (uint16_t)v2) : CODictWrLong(&N()->Dict, CO_DEV(0x2100, d.sub), v2); if (e != CO_ERR_NONE) { fail("rpdo/api-write-refused", "dictionary write returned " + std::to_string((int)e)); return; } val[d.sub] = v2; }
+        else if (k == "wr") { if (objs.empty()) return; const RObj &d = objs[(size_t)o.arg(0) % objs.size()]; uint32_t v2 = (uint32_t)o.arg(1) & (d.width == 4 ? 0xFFFFFFFFu : ((1u << (8 * d.width)) - 1)); w.cur = 0; CO_ERR e = d.width == 1 ? CODictWrByte(&N()->Dict, CO_DEV(ix(d.sub), d.sub), (uint8_t)v2) : d.width == 2 ? CODictWrWord(&N()->Dict, CO_DEV(ix(d.sub), d.sub), (uint16_t)v2) : CODictWrLong(&N()->Dict, CO_DEV(ix(d.sub), d.sub), v2); if (e != CO_ERR_NONE) { fail("rpdo/api-write-refused", "dictionary write returned " + std::to_string((int)e)); return; } val[d.sub] = v2; }
         else if (k == "rpdo") {
             int n = (int)(o.arg(0) % CO_RPDO_N); int delta = (int)o.arg(1); RpdoModel &r = R[(size_t)n]; uint32_t id = (0x200u + 0x100u * (uint32_t)n + nodeId + (uint32_t)delta) & 0x7FF; if (id == 0x601 || id == 0x80 || id == 0) return;
             uint8_t dlc = (uint8_t)o.arg(2, 8); if (dlc > 8) dlc = 8; if (delta == 0 && r.exists && dlc < r.mapped) dlc = 8;     // DLC below the mapped length: not constrained, not generated
@@ -92,7 +93,7 @@ struct RpdoRun : NodeEnv {
         std::string why; bool ok = imageOk(why);
         if (!ok && !alts.empty()) { for (auto &a : alts) { std::map<uint8_t, uint32_t> keep = val; val = a; std::string w2; if (imageOk(w2)) { ok = true; break; } val = keep; } }
         if (!ok) {
-            bool changedAtAll = false; for (auto &d : objs) if (w.raw(0, 0x2100, d.sub) != before[d.sub]) changedAtAll = true;
+            bool changedAtAll = false; for (auto &d : objs) if (w.raw(0, ix(d.sub), d.sub) != before[d.sub]) changedAtAll = true;
             const char *rule = k == "sync" ? (m == M_OP ? "rpdo/sync-application" : "rpdo/sync-outside-op-changed-objects") : k == "rpdo" ? (m == M_OP ? (changedAtAll ? "rpdo/payload-distribution" : "rpdo/not-applied") : "rpdo/outside-op-changed-objects") : "rpdo/image";
             fail(rule, why + " after " + k + " in mode " + std::to_string(m)); return;
         }
@@ -114,7 +115,7 @@ struct RpdoRun : NodeEnv {
 
 Plan gen_rpdo(Rng &r, bool thorough) {
     Plan p; int nobj = (int)r.range(1, 10); p.cfg["lowidx"] = r.chance(1, 4); bool tp = r.chance(1, 3); p.cfg["tpdos"] = tp ? (int64_t)r.range(1, 4) : 0; p.cfg["tpdotype"] = r.chance(3, 4);
-    for (int i = 0; i < nobj; i++) p.ops.push_back(Op("obj", {r.pick<int64_t>({1, 1, 2, 2, 4, 4}), (int64_t)r.below(2), (int64_t)r.below(0x10000) * 65537}));
+    for (int i = 0; i < nobj; i++) p.ops.push_back(Op("obj", {r.pick<int64_t>({1, 1, 2, 2, 4, 4}), (int64_t)r.below(2), (int64_t)r.below(0x10000) * 65537, r.chance(1, 5) ? r.range(1, 5) : 0}));
     for (int n = 0; n < 4; n++) if (r.chance(2, 3)) { Op c("rpdocfg", {n, (int64_t)r.chance(5, 6), r.chance(1, 2) ? r.pick<int64_t>({1, 1, 2, 240}) : r.pick<int64_t>({254, 255})}); int nm = (int)r.range(1, 8); for (int j = 0; j < nm; j++) { c.b.push_back(r.chance(1, 4) ? 200 : (uint8_t)r.below((uint32_t)nobj)); c.b.push_back(r.byte()); } p.ops.push_back(c); }
     if (r.chance(9, 10)) p.ops.push_back(Op("nmt", {1}));
     int n = (int)r.range(3, thorough ? 50 : 25);
